@@ -246,6 +246,25 @@ def run_doc(ctx: Ctx, d: specgen.Doc, n: int, layout: tuple[str, str | None]) ->
         dd = diff_trees(base, digest(root0, tops))
         if dd:
             rec.violation(f"determinism:project_root_through_symlink:{classify_changed(dd)}", feats, dict(case, variant="root symlink"), dd)
+    # a project root whose path has spaces, non-ASCII letters, a dot-directory and a trailing '..' hop: same bytes, and the
+    # immediate re-run is a no-op there as well
+    odd = work / "pröj dir (v2)" / ".hidden" / "x y"
+    odd.mkdir(parents=True)
+    odd_arg = odd / "sub" / ".."
+    (odd / "sub").mkdir()
+    rv = fresh(ctx, spec, odd_arg, pkg, core, "5", force=True)
+    rec.count("tree_pairs_compared")
+    rec.case(dict(case, variant="odd project root path"), nontrivial=True)
+    if not rv.get("ok"):
+        rec.violation("determinism:odd_root_path:generation_fails", feats, dict(case, variant="odd root path"), (rv.get("error") or "")[:200])
+    else:
+        dd = diff_trees(base, digest(odd, tops))
+        if dd:
+            rec.violation(f"determinism:odd_root_path:{classify_changed(dd)}", feats, dict(case, variant="odd root path"), dd)
+        rv = fresh(ctx, spec, odd_arg, pkg, core, "6", force=False)
+        rec.count("noop_reruns_host_variants")
+        if not rv.get("ok"):
+            rec.violation("rerun:up_to_date_output_reported_as_different:odd_root_path", feats, dict(case, variant="odd root path"), (rv.get("error") or "")[:200])
     # tampering: the non-force run must FAIL when the existing tree differs from what would be generated
     py_files = sorted(f for f in before if f.endswith(".py") and Path(root0, f).stat().st_size > 0)
     if core:
